@@ -5,7 +5,7 @@ import numpy as np
 from .. import core, gen
 
 ID = 'C06'
-FOUNDATIONS = ['harness.foundation.filteriter', 'harness.foundation.pybody']   # pybody: gaussWeightsG is tied to the current body of gaussian_filter1d; the models use the closed form proved by F6 (filterIter_refines)
+FOUNDATIONS = ['harness.foundation.filteriter', 'harness.foundation.pybody', 'harness.foundation.cscalar']   # see each foundation module's docstring
 LEAN_TARGETS = ['Mahotas.Proofs.FilterIter']
 LEVEL = 'proof'
 MODES = ['nearest', 'wrap', 'reflect', 'mirror', 'constant', 'ignore']
